@@ -80,7 +80,7 @@ def gen_np(rnd, lp_name, n_arms, name=None, names=("Radius", "KNearest", "LSHNea
     elif name == "KNearest":
         kw = {"k": rnd.randint(1, 5), "metric": rnd.choice(METRICS_EXACT)}
     elif name == "LSHNearest":
-        kw = {"n_dimensions": rnd.randint(1, 4), "n_tables": rnd.randint(1, 3)}
+        kw = {"n_dimensions": 33 if rnd.random() < 0.04 else rnd.randint(1, 4), "n_tables": rnd.randint(1, 3)}
         if allow_probs and rnd.random() < 0.3:
             kw["no_nhood_prob_of_arm"] = gen_probs(rnd, n_arms)
     elif name == "Clusters":
